@@ -158,7 +158,7 @@ def eval_text(case):
 
 EVALUATORS = {"is_url": eval_isurl, "text": eval_text}
 
-NEAR = ["http://lemonde.fr", "https://lemonde.fr/a b", "lemonde.fr", "//lemonde.fr/x", "ftp://lemonde.fr", "wss://a.io/s", "gopher://a.io",
+NEAR = ["http://foo.com/#!/page#section", "lemonde.fr/a?b=c#d#e", "http://a.com/x y#f#g", "http://a.com?x#y?z#w", "http://lemonde.fr", "https://lemonde.fr/a b", "lemonde.fr", "//lemonde.fr/x", "ftp://lemonde.fr", "wss://a.io/s", "gopher://a.io",
         "http://a.zzzz", "a.zzzz/x", "http://localhost", "http://localhost:8080/a b", "localhost", "http://127.0.0.1/x", "127.0.0.1",
         "http://256.1.1.1", "http://[::1]/", "[::1]", "http://a", "a", "http://a.b", "http://a.co", "HTTP://LEMONDE.FR/X", "http://é.fr",
         "http://xn--9ca.fr", "http://a.xn--p1ai", "http://a.рф", "http://user:pw@a.com/", "user@a.com", "http://a.com:80", "http://a.com:8",
@@ -195,19 +195,19 @@ def _isurl_strategy(tier):
     return st.one_of(
         st.tuples(structs, st.sampled_from(["http", "https", "HTTP", "ftp", "wss", "ws", "gopher", "x"]), st.sampled_from(["", "", " ", "\n"])).map(mk),
         st.sampled_from(NEAR).map(lambda s: {"kind": "is_url", "s": s}),
-        st.tuples(st.sampled_from(NEAR), st.sampled_from(["/a b", "?q= x", "#f g", ":80", ".", "/", " x"])).map(lambda v: {"kind": "is_url", "s": v[0] + v[1]}))
+        st.tuples(st.sampled_from(NEAR), st.sampled_from(["/a b", "?q= x", "#f g", ":80", ".", "/", " x", "#a#b", "/p#x#y z", "?a#b#c"])).map(lambda v: {"kind": "is_url", "s": v[0] + v[1]}))
 
 
-URLS_T = ["http://a.com", "https://b.fr/x?y=1#z", "http://a.com/x.", "ftp://h.org/p", "//c.net/q", "http://é.fr/é", "http://127.0.0.1:8080/",
+URLS_T = ["http://lemonde.f", "http://a.c", "https://b.fr/x\u2003", "http://a.com", "https://b.fr/x?y=1#z", "http://a.com/x.", "ftp://h.org/p", "//c.net/q", "http://é.fr/é", "http://127.0.0.1:8080/",
           "http://localhost/x", "a.com", "www.a.com/x", "HTTP://A.COM/X", "http://a.com/(x)", "http://a.com/x,y", "http://u:p@a.com/"]
 MARKDOWN = ["[http://a.com/x](http://b.com/y)", "[text](http://b.com)", "[http://a.com/x](", "[http://a.com/x]()", "[http://a.com/x]( )",
             "[http://a.com/](foo)", "[http://a.com/](/rel)", "[http://a.com/](#)", "[http://a.com/x](b.com)", "[http://a.com,](http://b.com)",
             "[http://a.com/x](http://b.com/y", "[http://a.com](http://b.com)](http://c.com)", "[http://a.com/x]", "[http://a.com/x] (http://b.com)",
             "![img](http://a.com/i.png)", "[a](http://b.com) [c](http://d.com)", "[http://a.com/x](http://b.com/y).", "[ http://a.com ](http://b.com)"]
 WORDS = ["word", "le", "http", "www"]
-PUNCT = [" ", "\n", ",", ".", "(", ")", "[", "]", "](", "!", "?", ":", ";", "'", "\"", "…", "«", "»", "’", "“", "”", "—", "-", "<", ">", "/", "#"]
+PUNCT = ["\u2003", "\u00a0", "\u2028", " ", "\n", ",", ".", "(", ")", "[", "]", "](", "!", "?", ":", ";", "'", "\"", "…", "«", "»", "’", "“", "”", "—", "-", "<", ">", "/", "#"]
 TOKENS_FULL = URLS_T + MARKDOWN + WORDS + PUNCT
-TOKENS_RED = ["http://a.com", "https://b.fr/x?y=1#z", "a.com", "//c.net/q", "[http://a.com/x](http://b.com/y)", "[http://a.com/x](",
+TOKENS_RED = ["http://lemonde.f", "\u2003", "http://a.com", "https://b.fr/x?y=1#z", "a.com", "//c.net/q", "[http://a.com/x](http://b.com/y)", "[http://a.com/x](",
               "[http://a.com/](foo)", "[text](http://b.com)", "word", " ", ",", ".", "(", ")", "[", "]", "](", "…", "»", "\n"]
 
 
